@@ -33,6 +33,9 @@ type Model struct {
 	U64 map[string]bool
 	// Deleted is set once a DeleteRange removed something on this path.
 	Deleted bool
+	// PrevLast is the last index the log had when a head truncation emptied it (alphabets use
+	// it to append right behind a log that was deleted completely).
+	PrevLast uint64
 }
 
 func NewModel() *Model {
@@ -40,7 +43,7 @@ func NewModel() *Model {
 }
 
 func (m *Model) Clone() *Model {
-	c := &Model{Deleted: m.Deleted, First: m.First, Last: m.Last, E: make(map[uint64]*raft.Log, len(m.E)), Stable: make(map[string][]byte, len(m.Stable)),
+	c := &Model{Deleted: m.Deleted, PrevLast: m.PrevLast, First: m.First, Last: m.Last, E: make(map[uint64]*raft.Log, len(m.E)), Stable: make(map[string][]byte, len(m.Stable)),
 		Hist: make(map[uint64][]string, len(m.Hist)), Acked: make(map[uint64]bool, len(m.Acked)), Truncated: make(map[uint64]bool, len(m.Truncated))}
 	for k, v := range m.Truncated {
 		c.Truncated[k] = v
@@ -118,6 +121,7 @@ func (m *Model) DeleteRange(min, max uint64) error {
 			delete(m.Acked, i)
 		}
 		if hi == m.Last {
+			m.PrevLast = m.Last
 			m.First, m.Last = 0, 0
 		} else {
 			m.First = hi + 1
